@@ -1,7 +1,7 @@
 (** Property C01 — theorems only.  [run] is the reference semantics (Core.Sem); the extracted [run] is
     the oracle of the failing-input search in harness/props/C01.py. *)
 From Coq Require Import ZArith List Bool.
-From Core Require Import Syntax Sem Equiv PartialEval PartialEvalSound Subst ShiftLoop.
+From Core Require Import Syntax Sem Equiv PartialEval PartialEvalSound Subst RewriteAt ShiftLoop.
 Import ListNotations.
 Local Open Scope Z_scope.
 
@@ -134,3 +134,19 @@ Theorem C01_substitution : forall x c cv okb T (Good : env -> Prop),
     (exec_list body st) (exec_list (PartialEval.pe_ss x c body) (Subst.tst T st)).
 Proof. exact Subst.body_sub. Qed.
 Print Assumptions C01_substitution.
+
+(** shift_loop on the whole procedure: [shift_proc i new_lo] is the term that Procedure.shift_loop returns
+    (compared term by term on every run, harness/props/C01.py); under the decidable side condition
+    [shift_ok_proc] (bounds are index expressions over variables the body does not re-bind) and a literal
+    new lower bound, the result preserves the source on every input. *)
+Theorem C01_shift_proc : forall i z p,
+  ShiftLoop.shift_ok_proc i (Int z) p = true -> preserves p (ShiftLoop.shift_proc i (Int z) p).
+Proof. intros i z p H inp bufs cfg. apply ShiftLoop.shift_proc_literal_preserves, H. Qed.
+Print Assumptions C01_shift_proc.
+
+(** any local rewrite that is sound where its side condition holds, applied wherever it matches *)
+Theorem C01_rewrite_everywhere : forall f ok,
+  (forall s s', f s = Some s' -> ok s = true -> refines [s] [s']) ->
+  forall p, RewriteAt.ok_proc f ok p = true -> preserves p (RewriteAt.rw_proc f p).
+Proof. intros f ok H p Hok inp bufs cfg. apply RewriteAt.rw_proc_preserves with (ok := ok); assumption. Qed.
+Print Assumptions C01_rewrite_everywhere.
